@@ -1571,3 +1571,96 @@ Proof.
   - rewrite forallb_forall in *. intros o Ho. apply in_map_iff in Ho as (x & <- & Hx). apply Hp. exact Hx.
   - apply http_non2xx_stops. exact Hs.
 Qed.
+
+(* ---------- cancellation in the middle of the chain ---------- *)
+
+(* the context dies while backend |pre| is working: o is what the merger takes from it (its
+   answer, or the context error e); every later backend returns e at once *)
+Lemma cancel_mid_chain ts pre o e rest ps0 :
+  forallb ok_out pre = true ->
+  List.length ts = List.length (pre ++ o :: OErr e :: rest) ->
+  let run := seq_run ts (pre ++ o :: OErr e :: rest) ps0 in
+  map shape (fst run) = expected_shapes (if ok_out o then S (S (List.length pre)) else S (List.length pre)) /\
+  (forall x, fst (snd run) = Some x -> complete x = false).
+Proof.
+  intros Hp Hl run. set (outs := (pre ++ o :: OErr e :: rest)%list) in *. split.
+  - unfold run, seq_run.
+    pose proof (model_calls_spec (combine (map bcfg_of ts) outs) ps0) as Hm. unfold calls_spec in Hm.
+    rewrite map_snd_combine in Hm by (rewrite map_length; exact Hl).
+    rewrite Hm. f_equal. unfold outs. destruct (ok_out o) eqn:Eo.
+    + replace (pre ++ o :: OErr e :: rest)%list with ((pre ++ [o]) ++ OErr e :: rest)%list by (rewrite <- app_assoc; reflexivity).
+      rewrite n_called_stop; [rewrite app_length; cbn; lia| |reflexivity].
+      rewrite forallb_app, Hp. cbn. rewrite Eo. reflexivity.
+    + apply n_called_stop; assumption.
+  - intros x Hx.
+    assert (HN : 2 <= List.length outs) by (unfold outs; rewrite app_length; cbn; lia).
+    pose proof (model_result_spec_ts ts outs ps0 Hl HN) as Hr. fold run in Hr.
+    assert (Hfull : forallb full_out outs = false).
+    { unfold outs. rewrite forallb_app. cbn [forallb full_out]. rewrite !andb_false_r. reflexivity. }
+    unfold result_spec in Hr. destruct outs as [|o0 tl] eqn:Eo; [cbn in HN; lia|].
+    destruct (err_of_out o0).
+    + rewrite Hr in Hx. discriminate.
+    + destruct Hr as (x' & Hf & _ & Hc & _). rewrite Hx in Hf. inversion Hf; subst x'.
+      rewrite Hfull in Hc. destruct (complete x); [|reflexivity]. destruct Hc as [Hc _]. discriminate (Hc eq_refl).
+Qed.
+
+(* ---------- arrays, null and objects as propagated values: the text ---------- *)
+
+Lemma fmt_v_scalar x tx : scalar_text x = Some tx -> fmt_v x = tx.
+Proof. destruct x; cbn; intros H; inversion H; reflexivity. Qed.
+
+Lemma param_of_scalar_array l :
+  Forall (fun v => scalar_text v <> None) l ->
+  param_of (JArr l) = join "," (map (fun v => match scalar_text v with Some s => s | None => "" end) l).
+Proof.
+  intros H. cbn [param_of]. f_equal. apply map_ext_in. intros v Hin.
+  rewrite Forall_forall in H. specialize (H v Hin). destruct (scalar_text v) as [s|] eqn:E; [|contradiction].
+  apply fmt_v_scalar. exact E.
+Qed.
+
+(* ---------- the model meets the oracle on the HTTP case kind ---------- *)
+
+Lemma error_object_wf c b e : wfj (error_object c b e) = true.
+Proof. unfold error_object. destruct (str_eqb b ""), (str_eqb e ""); reflexivity. Qed.
+
+Lemma http_outcome_wf m r :
+  match h_decoded r with Some d => wfj (JObj d) = true | None => True end -> wf_out (http_outcome m r).
+Proof.
+  intros Hd. unfold http_outcome. destruct (ok_status (h_code r)).
+  - destruct (h_decoded r); [exact Hd|exact I].
+  - destruct m; try exact I. cbn [wf_out data].
+    cbn [wfj nodup_keys keys map fst nodup_str str_mem negb andb]. rewrite error_object_wf. reflexivity.
+Qed.
+
+Lemma model_meets_oracle_http ts hs ps0 :
+  List.length ts = List.length hs -> 2 <= List.length hs ->
+  Forall (fun x => match h_decoded (snd x) with Some d => wfj (JObj d) = true | None => True end) hs ->
+  spec_b ts (map (fun x => http_outcome (fst x) (snd x)) hs) ps0 (seq_run_http ts hs ps0) = true.
+Proof.
+  intros Hl HN Hwf. unfold seq_run_http. apply model_meets_oracle.
+  - rewrite map_length. exact Hl.
+  - rewrite map_length. exact HN.
+  - rewrite Forall_forall in *. intros o Ho. apply in_map_iff in Ho as (x & <- & Hx).
+    apply http_outcome_wf. apply Hwf. exact Hx.
+Qed.
+
+(* ---------- the loop extended with propagated params is conservative ---------- *)
+
+Lemma seq_loop_x_nil : forall bes i parts ps reg a,
+  (let '(e, _, r) := seq_loop_x [] bes i parts ps reg a in (e, r)) = seq_loop false bes i parts ps reg a.
+Proof.
+  induction bes as [|[b o] rest IH]; intros i parts ps reg a; [reflexivity|].
+  cbn [seq_loop_x seq_loop]. rewrite app_nil_r.
+  destruct (if (i =? 0)%nat then (ps, reg) else fold_left (apply_repl i parts) (b_tab b) (ps, reg)) as [ps' reg'].
+  destruct o as [r|e|].
+  - destruct (complete r); [|reflexivity].
+    specialize (IH (S i) (parts ++ [Some r])%list ps' reg' (acc_merge a (MP r))).
+    destruct (seq_loop_x [] rest (S i) (parts ++ [Some r]) ps' reg' (acc_merge a (MP r))) as [[tr pr] res].
+    rewrite <- IH. reflexivity.
+  - destruct (i =? 0)%nat; reflexivity.
+  - destruct (i =? 0)%nat; reflexivity.
+Qed.
+
+Lemma seq_run_x_nil ts outs ps0 :
+  (let '(e, _, r) := seq_run_x ts [] outs ps0 in (e, r)) = seq_run ts outs ps0.
+Proof. unfold seq_run_x, seq_run, seq_run_cfg. cbn [filter map]. apply seq_loop_x_nil. Qed.
